@@ -12,6 +12,10 @@ From CSL Require Import Base.Prelude Cbor.Head.
 Local Open Scope N_scope.
 
 Inductive presence := Req | Opt | OptNE.   (* required / optional / optional, absent when empty *)
+(* order of the entries of a map on the wire: insertion order (LinkedHashMap / Vec; keys distinct),
+   bytewise order of the encoded keys (BTreeMap with a derived Ord that agrees with it), or the derived
+   order of RewardAddress (network id, then key-before-script, then hash) *)
+Inductive key_order := KInsertion | KBytewise | KRewardAddr.
 
 Inductive schema :=
 | SUint (lim : N)                  (* unsigned integer < lim (lim <= 2^64) *)
@@ -20,11 +24,11 @@ Inductive schema :=
 | SText (hi : N)                   (* definite text string (UTF-8 bytes), length <= hi *)
 | SBool
 | SArr (fs : slist)                (* [f1, ..., fn], fixed arity *)
-| SMap (fs : klist)                (* {k: v}, uint keys, ascending *)
+| SMap (fs : klist)                (* {k: v}, distinct uint keys, in the writer's order *)
 | SVar (alts : vlist)              (* [index, fields...] *)
 | SArrOf (lo : N) (s : schema)     (* definite array of at least lo items *)
 | SSetOf (s : schema)              (* #6.258([* s]), pairwise distinct *)
-| SMapOf (lo : N) (sorted : bool) (k v : schema)   (* definite map with at least lo entries *)
+| SMapOf (lo : N) (ord : key_order) (k v : schema)   (* definite map with at least lo entries *)
 | SNullable (s : schema)           (* null / s *)
 | STag (t : N) (s : schema)        (* #6.t(s) *)
 | SInBytes (s : schema)            (* bytes .cbor s *)
@@ -32,6 +36,7 @@ Inductive schema :=
 | STagChoice (alts : clist)        (* #6.t_i(s_i): alternatives told apart by the tag number *)
 | SArrAny (s : schema)             (* array of s, definite (VAlt 0) or indefinite with break (VAlt 1): PlutusList *)
 | SBBytes                          (* bounded bytes: definite when <= 64 bytes, else indefinite with 64-byte chunks *)
+| SNamed (id : N) (s : schema)     (* s, with a name the generator and the domain refinement can refer to *)
 with slist := SNil | SCons (s : schema) (r : slist)
 with klist := KNil | KCons (key : N) (p : presence) (s : schema) (r : klist)
 with vlist := ANil | ACons (idx : N) (fs : slist) (r : vlist)
@@ -54,20 +59,21 @@ Fixpoint klen (fs : klist) : N := match fs with KNil => 0 | KCons _ _ _ r => 1 +
 Fixpoint slen (fs : slist) : N := match fs with SNil => 0 | SCons _ r => 1 + slen r end.
 
 (* ---- the major type an encoding starts with (None: depends on the value) ---- *)
-Definition first_major (s : schema) : option N :=
+Fixpoint first_major (s : schema) : option N :=
   match s with
   | SUint _ => Some 0 | SNint => Some 1 | SBytes _ _ => Some 2 | SText _ => Some 3 | SBool => Some 7
   | SArr _ => Some 4 | SMap _ => Some 5 | SVar _ => Some 4 | SArrOf _ _ => Some 4 | SSetOf _ => Some 6
   | SMapOf _ _ _ _ => Some 5 | SNullable _ => None | STag _ _ => Some 6 | SInBytes _ => Some 2
   | SChoice _ => None | STagChoice _ => Some 6 | SArrAny _ => Some 4 | SBBytes => Some 2
+  | SNamed _ s' => first_major s'
   end.
 
 (* can an encoding start with a byte of major type 7 (so that it could be mistaken for a break)? *)
 Fixpoint has_disc (d : N) (alts : clist) : bool :=
   match alts with CNil => false | CCons e _ r => (d =? e) || has_disc d r end.
-Definition may_start7 (s : schema) : bool :=
+Fixpoint may_start7 (s : schema) : bool :=
   match s with
-  | SBool => true | SNullable _ => true | SChoice alts => has_disc 7 alts | _ => false
+  | SBool => true | SNullable _ => true | SChoice alts => has_disc 7 alts | SNamed _ s' => may_start7 s' | _ => false
   end.
 
 (* write_bounded_bytes: chunks of 64 bytes, each written as a definite byte string *)
@@ -81,7 +87,11 @@ Definition enc_chunk (c : bytes) : bytes := encode_head 2 (N.of_nat (length c)) 
 (* ---- encoder ---- *)
 Definition enc_uint (n : N) : bytes := encode_head 0 n.
 Definition is_empty_val (v : val) : bool :=
-  match v with VList [] => true | VMap [] => true | _ => false end.
+  match v with
+  | VList [] => true | VMap [] => true
+  | VAlt _ (VList []) => true | VAlt _ (VMap []) => true     (* a collection behind a choice of wire forms *)
+  | _ => false
+  end.
 (* is the field written?  (opt64 / opt64_non_empty in the Rust map-length computations) *)
 Definition present (p : presence) (o : option val) : bool :=
   match o with
@@ -120,6 +130,7 @@ Fixpoint enc (s : schema) (v : val) {struct s} : bytes :=
   | SBBytes, VBytes b =>
       if N.of_nat (length b) <=? 64 then encode_head 2 (N.of_nat (length b)) ++ b
       else 95 :: concat (map enc_chunk (chunk64 (length b) b)) ++ [255]
+  | SNamed _ s', v' => enc s' v'
   | _, _ => []
   end
 with enc_sl (fs : slist) (l : list val) {struct fs} : bytes :=
@@ -156,10 +167,14 @@ with enc_cl (tagged : bool) (alts : clist) (i : nat) (v : val) {struct alts} : b
   end.
 
 (* ---- well-formed schemas ---- *)
-Fixpoint keys_above (lo : option N) (fs : klist) : bool :=
+(* keys of a map-struct: pairwise distinct, listed in the order the writer emits them (ascending for
+   every type except the witness set, which writes 0,1,2,3,6,7,4,5) *)
+Fixpoint key_fresh (k : N) (fs : klist) : bool :=
+  match fs with KNil => true | KCons j _ _ r => negb (k =? j) && key_fresh k r end.
+Fixpoint keys_nodup (fs : klist) : bool :=
   match fs with
   | KNil => true
-  | KCons k _ _ r => (match lo with None => true | Some l => l <? k end) && (k <? two64) && keys_above (Some k) r
+  | KCons k _ _ r => key_fresh k r && (k <? two64) && keys_nodup r
   end.
 Fixpoint idx_fresh (i : N) (alts : vlist) : bool :=
   match alts with ANil => true | ACons j _ r => negb (i =? j) && idx_fresh i r end.
@@ -175,7 +190,7 @@ Fixpoint wfs (s : schema) : bool :=
   | SBytes lo hi => hi <? two64
   | SText hi => hi <? two64
   | SArr fs => wfs_sl fs && (slen fs <? two64)
-  | SMap fs => wfs_kl fs && keys_above None fs && (klen fs <? two64)
+  | SMap fs => wfs_kl fs && keys_nodup fs && (klen fs <? two64)
   | SVar alts => wfs_vl alts
   | SArrOf _ s' => wfs s'
   | SSetOf s' => wfs s'
@@ -187,6 +202,7 @@ Fixpoint wfs (s : schema) : bool :=
   | STagChoice alts => wfs_cl true alts
   | SArrAny s' => wfs s' && negb (may_start7 s')
   | SBBytes => true
+  | SNamed _ s' => wfs s'
   end
 with wfs_sl (fs : slist) : bool :=
   match fs with SNil => true | SCons s r => wfs s && wfs_sl r end
@@ -227,6 +243,10 @@ Fixpoint sortedb (l : list bytes) : bool :=
   | _ => true
   end.
 
+(* 0x58 0x1d h hash  |->  network, kind, hash *)
+Definition reward_sort_key (e : bytes) : bytes :=
+  match e with a :: b :: h :: t => (h mod 16) :: (h / 16) :: t | _ => e end.
+
 Fixpoint wfv (s : schema) (v : val) {struct s} : bool :=
   match s, v with
   | SUint lim, VNat n => n <? lim
@@ -239,10 +259,14 @@ Fixpoint wfv (s : schema) (v : val) {struct s} : bool :=
   | SVar alts, VVar i l => wfv_vl alts i l
   | SArrOf lo s', VList l => forallb (wfv s') l && (lo <=? N.of_nat (length l)) && (N.of_nat (length l) <? two64)
   | SSetOf s', VList l => forallb (wfv s') l && nodupb (map (enc s') l) && (N.of_nat (length l) <? two64)
-  | SMapOf lo sorted k v', VMap l =>
+  | SMapOf lo ord k v', VMap l =>
       forallb (fun kv => wfv k (fst kv) && wfv v' (snd kv)) l && (lo <=? N.of_nat (length l)) &&
       (N.of_nat (length l) <? two64) &&
-      (if sorted then sortedb (map (fun kv => enc k (fst kv)) l) else nodupb (map (fun kv => enc k (fst kv)) l))
+      (match ord with
+       | KInsertion => nodupb (map (fun kv => enc k (fst kv)) l)
+       | KBytewise => sortedb (map (fun kv => enc k (fst kv)) l)
+       | KRewardAddr => sortedb (map (fun kv => reward_sort_key (enc k (fst kv))) l)
+       end)
   | SNullable s', VNull => true
   | SNullable s', v' => wfv s' v'
   | STag _ s', v' => wfv s' v'
@@ -252,6 +276,7 @@ Fixpoint wfv (s : schema) (v : val) {struct s} : bool :=
   | SArrAny s', VAlt O (VList l) => forallb (wfv s') l && (N.of_nat (length l) <? two64)
   | SArrAny s', VAlt (S O) (VList l) => forallb (wfv s') l
   | SBBytes, VBytes b => bytes_okb b
+  | SNamed _ s', v' => wfv s' v'
   | _, _ => false
   end
 with wfv_sl (fs : slist) (l : list val) {struct fs} : bool :=
@@ -404,6 +429,7 @@ Fixpoint dec (s : schema) {struct s} : parser val :=
           if m =? 2 then let* '(cs, r') := dec_until_break dec_chunk (S (length r)) r in Ok (VBytes (concat cs), r') else Err
       | None => Err
       end
+  | SNamed _ s' => dec s'
   end
 with dec_sl (fs : slist) {struct fs} : parser (list val) :=
   match fs with
@@ -446,4 +472,47 @@ with dec_cl (alts : clist) {struct alts} : N -> nat -> parser val :=
   | CCons d s r => fun disc pos bs =>
       if disc =? d then let* '(v, b1) := dec s bs in Ok (VAlt pos v, b1)
       else dec_cl r disc (S pos) bs
+  end.
+
+(* ---- domain refinement ----
+   [refined r s v]: the predicate [r id] holds at every node named [id] inside a schema-valid value.
+   Used (outside the round-trip theorem, which holds on all of wfv) to delimit the values the
+   library's WRITERS can produce when a constraint spans several fields. *)
+Fixpoint refined (r : N -> val -> bool) (s : schema) (v : val) {struct s} : bool :=
+  match s, v with
+  | SArr fs, VList l => refined_sl r fs l
+  | SMap fs, VStruct l => refined_kl r fs l
+  | SVar alts, VVar i l => refined_vl r alts i l
+  | SArrOf _ s', VList l => forallb (refined r s') l
+  | SSetOf s', VList l => forallb (refined r s') l
+  | SMapOf _ _ k v', VMap l => forallb (fun kv => refined r k (fst kv) && refined r v' (snd kv)) l
+  | SNullable s', VNull => true
+  | SNullable s', v' => refined r s' v'
+  | STag _ s', v' => refined r s' v'
+  | SInBytes s', v' => refined r s' v'
+  | SChoice alts, VAlt i v' => refined_cl r alts i v'
+  | STagChoice alts, VAlt i v' => refined_cl r alts i v'
+  | SArrAny s', VAlt _ (VList l) => forallb (refined r s') l
+  | SNamed id s', v' => r id v' && refined r s' v'
+  | _, _ => true
+  end
+with refined_sl (r : N -> val -> bool) (fs : slist) (l : list val) {struct fs} : bool :=
+  match fs, l with
+  | SCons s t, v :: t' => refined r s v && refined_sl r t t'
+  | _, _ => true
+  end
+with refined_kl (r : N -> val -> bool) (fs : klist) (l : list (option val)) {struct fs} : bool :=
+  match fs, l with
+  | KCons _ _ s t, o :: t' => (match o with Some v => refined r s v | None => true end) && refined_kl r t t'
+  | _, _ => true
+  end
+with refined_vl (r : N -> val -> bool) (alts : vlist) (i : nat) (l : list val) {struct alts} : bool :=
+  match alts with
+  | ANil => true
+  | ACons _ fs t => match i with O => refined_sl r fs l | S i' => refined_vl r t i' l end
+  end
+with refined_cl (r : N -> val -> bool) (alts : clist) (i : nat) (v : val) {struct alts} : bool :=
+  match alts with
+  | CNil => true
+  | CCons _ s t => match i with O => refined r s v | S i' => refined_cl r t i' v end
   end.
